@@ -303,5 +303,11 @@ def run(ctx):
     check_effect_tables(ctx, "C02")
     from ..rules_common import check_presence_tests, ARG_SCOPE
     check_presence_tests(ctx, "C02.PRESENCE", classes=ARG_SCOPE.get("C02", []))
+    from ..rules_common import check_param_rebinding
+    check_param_rebinding(ctx, "C02.PARAMS", classes=ARG_SCOPE.get("C02", []))
+    from ..rules_common import check_region_table, statements_mentioning
+    check_region_table(ctx, "C02.TABLE", prog.method(prog.cls("parser._parser.parser", "C02.TABLE").qualname, "_parse", "C02.TABLE"), statements_mentioning({"tzoffset", "hour_offset", "min_offset"}),
+                       "a numeric UTC offset is sign * (hours * 3600 + minutes * 60) from the two-digit fields at the cursor, whatever the sign and the hour",
+                       "_parse: numeric UTC offset")
 
 
